@@ -564,6 +564,15 @@ class FunTerm:
                     self.defdepth[nm] = self.cur_depth()
         if st.orelse:
             self.block(st.orelse)
+        # `for x in L: x[i] -= 1` / `x.append(..)` changes the ELEMENTS of L in place: what L (and anything it was built
+        # from by reference) holds afterwards is not what the summary of L says
+        touched = _element_mutations(st.body) & set(bound)
+        if touched:
+            for n_ in ast.walk(st.iter):
+                nm_ = varname(n_) if isinstance(n_, (ast.Name, ast.Attribute)) else None
+                if nm_ and nm_ in self.env:
+                    self.env[nm_] = OPQ(f"elements of {nm_} modified in place through {sorted(touched)}")
+                    f.pending.pop(nm_, None)
         # close the frame: fold the contributions
         for nm, contribs in f.pending.items():
             if not contribs:
@@ -714,6 +723,27 @@ def _written_names(body) -> set:
             elif isinstance(n, ast.Call) and isinstance(n.func, ast.Attribute) and n.func.attr in ("append", "add", "extend", "update", "setdefault") and varname(n.func.value):
                 out.add(varname(n.func.value))
     return out - rebound
+
+
+def _element_mutations(body) -> set:
+    """Names whose OBJECT a loop body modifies in place: subscript / attribute stores and deletes, mutator method calls."""
+    out = set()
+    for st in body:
+        for n in ast.walk(st):
+            tgts = []
+            if isinstance(n, ast.Assign):
+                for t in n.targets:
+                    tgts.extend(t.elts if isinstance(t, (ast.Tuple, ast.List)) else [t])
+            elif isinstance(n, (ast.AugAssign, ast.AnnAssign)):
+                tgts = [n.target]
+            elif isinstance(n, ast.Delete):
+                tgts = list(n.targets)
+            for t in tgts:
+                if isinstance(t, (ast.Subscript, ast.Attribute)) and isinstance(t.value, ast.Name):
+                    out.add(t.value.id)
+            if isinstance(n, ast.Call) and isinstance(n.func, ast.Attribute) and isinstance(n.func.value, ast.Name) and n.func.attr in astx.MUTATOR_METHODS:
+                out.add(n.func.value.id)
+    return out
 
 
 def txt_is_empty_dict(p: tuple) -> bool:
